@@ -52,6 +52,9 @@ CallEncoding(f, vs, rv, W) ==
         rf == ResultFlat(f, rv, W)
         rm == ResultMem(f, rv, W)
         common == [indirect |-> IndirectParams(f, W, MAX_FLAT_PARAMS), retptr |-> RetPtr(f, W),
+                   \* async lower (C08): at most 4 flat parameters, else one pointer to the parameter record; a result always
+                   \* goes through an out-pointer.  task.return of a result r is encoded like the parameters of g(r) (limit 16).
+                   asyncIndirect |-> IndirectParams(f, W, MAX_FLAT_ASYNC_PARAMS),
                    paramsFlat |-> pf.vals, paramsFlatBlocks |-> pf.blocks,
                    paramsMem |-> pm.cells, paramsMemBlocks |-> pm.blocks,
                    paramsSize |-> Size(ParamsRecord(f), W), paramsAlign |-> Align(ParamsRecord(f), W),
